@@ -6,6 +6,7 @@ import (
 	"bytes"
 	"context"
 	"fmt"
+	"github.com/acquirecloud/golibs/container/iterable"
 	"sort"
 	"strings"
 	"time"
@@ -49,7 +50,8 @@ type SOp struct {
 	Vals []int  `json:"vals,omitempty"`
 	Exps []int  `json:"exps,omitempty"`
 	Pat  int    `json:"pat,omitempty"`
-	Min  int    `json:"min,omitempty"` // advance: minutes
+	Pat2 int    `json:"pat2,omitempty"` // list: 1+index of a second pattern listed right after the first, before either iterator is read (0 = single listing)
+	Min  int    `json:"min,omitempty"`  // advance: minutes
 }
 
 // SCase is a sequential case.
@@ -72,6 +74,9 @@ func (o SOp) String() string {
 	case "putmany":
 		return fmt.Sprintf("putmany(%v,vals%v,exps%v)", keyNames(o.Keys), o.Vals, o.Exps)
 	case "list":
+		if o.Pat2 > 0 {
+			return fmt.Sprintf("list(%q)+list(%q) read in reverse order", Patterns[o.Pat], Patterns[o.Pat2-1])
+		}
 		return fmt.Sprintf("list(%q)", Patterns[o.Pat])
 	case "advance":
 		return fmt.Sprintf("advance(%dmin)", o.Min)
@@ -147,6 +152,7 @@ type Driver struct {
 	assigned map[string]bool       // every version handed out by this backend in this case
 	passed   map[string]*time.Time // ExpiresAt given with the key's current record
 	parked   []*parkedWaiter
+	neverN   int // number of "never" expiries handed out in this case
 }
 
 type parkedWaiter struct {
@@ -159,6 +165,7 @@ type parkedWaiter struct {
 func (d *Driver) reset() {
 	d.cur, d.prev, d.assigned, d.passed = map[string]string{}, map[string]string{}, map[string]bool{}, map[string]*time.Time{}
 	d.parked = nil
+	d.neverN = 0
 }
 
 func (d *Driver) expiry(m *Model, exp int) *time.Time {
@@ -167,7 +174,10 @@ func (d *Driver) expiry(m *Model, exp int) *time.Time {
 	}
 	t := d.Now().Add(ExpOffsets[exp])
 	if exp == ExpNever {
-		t = time.Date(2500+int(d.Now().UnixNano()%7000), 1, 1, 0, 0, 0, 0, time.UTC)
+		// centuries to hundreds of millennia ahead, on both sides of what 64-bit nanoseconds, RFC 3339 and protobuf timestamps can express
+		years := []int{2500, 2999, 9999, 10000, 10001, 25000, 292277, 1000000}
+		t = time.Date(years[d.neverN%len(years)], time.Month(1+d.neverN%12), 1, 0, 0, 0, 0, time.UTC)
+		d.neverN++
 	}
 	return &t
 }
@@ -588,38 +598,53 @@ func runSeq(c SCase, drivers []*Driver, info *Info) *vstat.Violation {
 				}
 			}
 		case "list":
-			pat := Patterns[op.Pat]
-			var want []string
-			for _, k := range Keys {
-				if expiredUntouched[k] && globMatch(pat, k) {
-					touch("list", k)
-				}
-				if m.alive(k) != nil && globMatch(pat, k) {
-					want = append(want, k)
-				}
+			// one listing, or two listings opened back to back (nothing else happens in between) and read in reverse order:
+			// each must yield the keys present at that moment whatever the other iterator does
+			pats := []string{Patterns[op.Pat]}
+			if op.Pat2 > 0 {
+				pats = append(pats, Patterns[op.Pat2-1])
+				info.class("two_listings_open_at_once")
 			}
-			sort.Strings(want)
-			if len(want) > 0 {
-				info.HitExisting = true
-				info.class("list_with_match")
+			wants := make([][]string, len(pats))
+			for pi, pat := range pats {
+				for _, k := range Keys {
+					if expiredUntouched[k] && globMatch(pat, k) {
+						touch("list", k)
+					}
+					if m.alive(k) != nil && globMatch(pat, k) {
+						wants[pi] = append(wants[pi], k)
+					}
+				}
+				sort.Strings(wants[pi])
+				if len(wants[pi]) > 0 {
+					info.HitExisting = true
+					info.class("list_with_match")
+				}
 			}
 			for _, d := range drivers {
-				it, err := d.St.ListKeys(ctx, pat)
-				if err != nil {
-					return vstat.V(d.Name+":list-error", "%s: ListKeys failed: %s", where, errName(err))
-				}
-				var got []string
-				for it.HasNext() {
-					k, ok := it.Next()
-					if !ok {
-						break
+				its := make([]iterable.Iterator[string], len(pats))
+				for pi, pat := range pats {
+					it, err := d.St.ListKeys(ctx, pat)
+					if err != nil {
+						return vstat.V(d.Name+":list-error", "%s: ListKeys failed: %s", where, errName(err))
 					}
-					got = append(got, k)
+					its[pi] = it
 				}
-				it.Close()
-				sort.Strings(got)
-				if strings.Join(got, "\x00") != strings.Join(want, "\x00") {
-					return vstat.V(d.Name+":list-keys", "%s: ListKeys returned %q want %q", where, got, want)
+				for pi := len(pats) - 1; pi >= 0; pi-- {
+					it := its[pi]
+					var got []string
+					for it.HasNext() {
+						k, ok := it.Next()
+						if !ok {
+							break
+						}
+						got = append(got, k)
+					}
+					it.Close()
+					sort.Strings(got)
+					if strings.Join(got, "\x00") != strings.Join(wants[pi], "\x00") {
+						return vstat.V(d.Name+":list-keys", "%s: ListKeys(%q) returned %q want %q", where, pats[pi], got, wants[pi])
+					}
 				}
 			}
 		case "advance":
